@@ -11,3 +11,5 @@ import StatsCI.Model.Quantile
 import StatsCI.Model.Instances
 import StatsCI.Lemmas.Order
 import StatsCI.Properties.C07
+import StatsCI.Model.Program
+import StatsCI.Lemmas.RR
